@@ -336,6 +336,9 @@ def check_roundtrip(pr, ver, src):
         real_src = gwfb.branch_factory(None, src)
     except berte_errors.UnrecognizedBranchPattern:
         return [('roundtrip_w', 'source is a FeatureBranch', 'rejected')]
+    except Exception as err:      # the factory must classify or reject, not crash
+        return [('roundtrip_w', 'source is a FeatureBranch',
+                 'crash: %s: %s' % (type(err).__name__, str(err)[:80]))]
     if type(real_src).__name__ != 'FeatureBranch':
         return [('roundtrip_w', 'source is a FeatureBranch',
                  type(real_src).__name__)]
@@ -361,6 +364,9 @@ def check_roundtrip(pr, ver, src):
         got_q['derived_name'] = qw.name
     except berte_errors.UnrecognizedBranchPattern as err:
         got_q = {'cls': None, 'error': str(err)[:100]}
+    except Exception as err:
+        got_q = {'cls': None, 'error': 'crash: %s: %s' % (
+            type(err).__name__, str(err)[:80])}
     if not _matches(exp_q, got_q):
         fails.append(('roundtrip_qw', exp_q, got_q))
     return fails
@@ -376,6 +382,9 @@ def check_roundtrip_q(ver):
         got = observe(qbranch.name, with_matches=False)
     except berte_errors.UnrecognizedBranchPattern as err:
         got = {'cls': None, 'error': str(err)[:100]}
+    except Exception as err:
+        got = {'cls': None, 'error': 'crash: %s: %s' % (
+            type(err).__name__, str(err)[:80])}
     if not _matches(exp, got):
         return [('roundtrip_q', exp, got)]
     return []
